@@ -2,7 +2,7 @@ package rules
 
 func init() {
 	reg("C07", &PropSpec{
-		Rules:       []Rule{r("T1", RuleT1), r("H1", RuleH1), r("MP1", RuleMP1), r("R1", RuleR1), r("R5", RuleR5), r("K1", RuleK1), r("MC1", RuleMC1)},
+		Rules:       []Rule{r("T1", RuleT1), r("H1", RuleH1), r("MP1", RuleMP1), r("R1", RuleR1), r("R5", RuleR5), r("K1", RuleK1), r("MC1", RuleMC1), r("MU1", RuleMU1)},
 		Explanation: "Decided: expansion is guarded against every cycle of macros, direct or mutual - the expansion SCC contains an on-stack-set guard (T1); a second macro with one name is refused before the insert and the on-stack mark precedes the recursion (H1); a pasted macro is used only where the table lookup found it (MP1); pasted children are nested by the same resolver as written ones (R1); MACRO and PASTE are consumed by the expansion stage and never reach the catalog builder, so an unpasted macro contributes nothing (K1). Not decided: equality of the catalog with the inlined document; a cycle among macros none of which is pasted is not rejected (it is never expanded). No function returns success because a key is already present without calling the duplicate-rejecting inserter (MC1); the paste pass restores the context by a Parent step only (R5).",
 		Trusted:     trustedCommon,
 	})
